@@ -114,10 +114,32 @@ reg("C13", ["c13_lenp.c"],
     exhaustive={"quick": "all fragmentations of two-frame streams of total length <= 12",
                 "thorough": "all fragmentations of two-frame streams of total length <= 12"})
 
+reg("C20", ["c20_sx.c"],
+    rule="'trees': every tree with <= 6 nodes and depth <= 4 over symbols {a, foo-1, +} and integers {0, 7, 255, "
+         "48879} (unranked from a counting recurrence; every 23rd tree from a seeded offset in quick, all in "
+         "thorough), rendered with three whitespace policies and decimal / #x lower / #x upper / mixed number "
+         "formats, with and without trailing material, parsed NUL-terminated and length-delimited (exact-size "
+         "poisoned block without terminator); 'strings-N': every string of length N <= 5 (quick) / <= 7 (thorough) "
+         "over '( ) space newline a 1 0 # x F' judged by a reference reader (verdict, tree, position); 'random': "
+         "parenthesis-heavy random strings up to 39 characters. Every case checks the allocation ledger (bytes "
+         "allocated before the parse == after sx_destroy) and, on error, that no tree is returned. A signature is "
+         "a distinct tree index or (generator, unit); evaluations counts parses compared.",
+    exhaustive={"quick": "all strings of length <= 5 over the 10-character alphabet",
+                "thorough": "all trees with <= 6 nodes/depth <= 4 over the vocabulary; all strings of length <= 7 over the 10-character alphabet"})
+
 SAN_NOTE = ("Trusted: gcc 12 ASan/UBSan runtime, the harness' reference model, the fork-per-unit runner. "
             "Assumes little-endian x86-64; decides only the executions listed in the evidence file.")
 
 MANIFEST_TEXT = {
+    "C20": dict(
+        technique="runtime monitoring: generated trees and exhaustive short strings against a reference reader, allocation-ledger leak oracle, exact-size poisoned inputs under ASan/UBSan",
+        text="Printer-inverse: generated trees are rendered with varied whitespace and hex case and the parse result "
+             "is compared structurally, including the reported position. Failure behaviour: all short strings over "
+             "a punctuation-heavy alphabet are judged by an independent recursive-descent reader; on error no tree "
+             "may be returned and the allocator ledger must balance. Length-delimited inputs end exactly at a "
+             "poisoned boundary, so any over-read is an ASan report; a reader that loops hits the unit watchdog "
+             "twice and is reported as a hang.",
+        note=SAN_NOTE),
     "C13": dict(
         technique="runtime monitoring: generated encoder/decoder cases against a reference prefix codec, fragmenting sources, partial sinks, exact-size poisoned buffers under ASan/UBSan",
         text="Every encoder entry point is run for every kind and length up to the bound and at each kind's maximum "
